@@ -76,3 +76,21 @@ Theorem C03_on_error_resume_next : forall k l, mrun_first OResume k l = spec_res
 Proof. exact resume_correct. Qed.
 Check C03_on_error_resume_next : forall k l, mrun_first OResume k l = spec_resume 0 l.
 Print Assumptions C03_on_error_resume_next.
+
+(* flat_map, for ANY selector and ANY inner observables: the source is subscribed at once (serial 0), the inner observable
+   of its k-th item is subscribed then, as serial k; the feed addresses events to serials.  For EVERY sequential
+   interleaving - signals of inner observables that are not subscribed yet, or after their terminal, included - the
+   subscriber receives the inner items in arrival order, the first error of anyone, and complete when the source and
+   every inner observable subscribed so far have completed. *)
+From RXP Require Import MLocFlat.
+Theorem C03_flat_map : forall f k l, mrun_first (OFlatMap f) k l = spec_flat_map_ser 1 [] l.
+Proof. exact flat_map_correct. Qed.
+Check C03_flat_map : forall f k l, mrun_first (OFlatMap f) k l = spec_flat_map_ser 1 [] l.
+Print Assumptions C03_flat_map.
+(* non-vacuity: two source items; the second inner observable "emits" 9 before it exists (not heard); the source
+   completes first; the result completes only when both inner observables have *)
+Example C03_example_flat_map :
+  spec_flat_map_ser 1 [] [(0, Nx (VInt 1)); (2, Nx (VInt 9)); (1, Nx (VInt 10)); (0, Nx (VInt 2)); (2, Nx (VInt 20)); (0, Co);
+                          (1, Nx (VInt 11)); (1, Co); (2, Nx (VInt 21)); (2, Co); (2, Nx (VInt 22))]
+  = [Nx (VInt 10); Nx (VInt 20); Nx (VInt 11); Nx (VInt 21); Co].
+Proof. vm_compute. reflexivity. Qed.
